@@ -25,10 +25,15 @@ structure Auth (cfg : Cfg) (db0 : Option Row) (s : State) : Prop where
   res : ∀ (i : Nat) (v : VThread), s.vs[i]? = some v → v.res = some true →
     ∃ r, Seen db0 s.sh.db r ∧ r.enabled = true ∧ r.hashOf = v.val ∧ Unexp cfg r v.now
   fresh : ∀ (i : Nat) (v : VThread), s.vs[i]? = some v → v.pc = .start → v.res = none
+  hit : ∀ (i : Nat) (v : VThread), s.vs[i]? = some v → v.pc = .hit →
+    ∃ e, v.he = some e ∧ Seen db0 s.sh.db e.info ∧ e.info.enabled = true ∧ e.info.hashOf = v.val ∧
+      Unexp cfg e.info v.now
 
 theorem vstep_pc {cfg : Cfg} {sh sh' : Shared} {i : Nat} {v v' : VThread}
     (h : vstep cfg sh i v = some (sh', v')) : v'.pc ≠ .start := by
-  rcases vstep_spec h with ⟨_, _, h2⟩ | ⟨_, _, h2⟩ | ⟨_, r, _, h2⟩ | ⟨_, r, _, h1, _⟩ | ⟨_, _, h2⟩ | ⟨_, _, h2⟩
+  rcases vstep_spec h with ⟨_, _, h2⟩ | ⟨_, _, h2⟩ | ⟨_, r, _, h2⟩ | ⟨_, r, _, h1, _⟩ | ⟨_, _, h2⟩ | ⟨_, _, h2⟩ | ⟨_, e, _, h2, _⟩
+  rotate_right
+  · subst h2; simp
   · rcases h2 with ⟨e, _, _, h2⟩ | h2 <;> subst h2 <;> simp
   · rcases h2 with ⟨r, _, _, h2⟩ | ⟨_, _, h2⟩ <;> subst h2 <;> simp
   · rcases h2 with ⟨_, _, _, h2⟩ | ⟨_, _, _, h2⟩ | ⟨_, _, h2⟩ <;> subst h2 <;> simp
@@ -45,7 +50,9 @@ theorem expired_false {e : Option Nat} {now t : Nat} (h : expired e now = false)
 theorem vstep_now {cfg : Cfg} {sh sh' : Shared} {i : Nat} {v v' : VThread}
     (h : vstep cfg sh i v = some (sh', v')) : v.pc ≠ .start → v'.now = v.now := by
   intro hne
-  rcases vstep_spec h with ⟨hpc, _⟩ | ⟨_, _, h2⟩ | ⟨_, r, _, h2⟩ | ⟨_, r, _, h1, _⟩ | ⟨_, _, h2⟩ | ⟨_, _, h2⟩
+  rcases vstep_spec h with ⟨hpc, _⟩ | ⟨_, _, h2⟩ | ⟨_, r, _, h2⟩ | ⟨_, r, _, h1, _⟩ | ⟨_, _, h2⟩ | ⟨_, _, h2⟩ | ⟨_, e, _, h2, _⟩
+  rotate_right
+  · subst h2; rfl
   · exact absurd hpc hne
   · rcases h2 with ⟨r, _, _, h2⟩ | ⟨_, _, h2⟩ <;> subst h2 <;> rfl
   · rcases h2 with ⟨_, _, _, h2⟩ | ⟨_, _, _, h2⟩ | ⟨_, _, h2⟩ <;> subst h2 <;> rfl
@@ -53,19 +60,20 @@ theorem vstep_now {cfg : Cfg} {sh sh' : Shared} {i : Nat} {v v' : VThread}
   · subst h2; rfl
   · subst h2; rfl
 
-theorem auth_step {cfg : Cfg} {db0 : Option Row} {s s' : State} {ev : Ev} (hA : Auth cfg db0 s)
+theorem auth_step {cfg : Cfg} {db0 : Option Row} {s s' : State} {ev : Ev} (hnt : cfg.hitTouch = false)
+    (hA : Auth cfg db0 s)
     (hs : step cfg s ev = some s') : Auth cfg db0 s' := by
   cases ev with
   | v i =>
     obtain ⟨v, sh', v', hv, hvs, hs'⟩ := step_v_spec hs
     subst hs'
     have hf := vstep_frame hvs
-    refine ⟨?_, ?_, ?_, ?_, ?_⟩
+    refine ⟨?_, ?_, ?_, ?_, ?_, ?_⟩
     · simp only; rw [hf.1]; exact hA.dbfix
     · intro k e hke
       simp only at hke ⊢
       rw [hf.1]
-      rcases vstep_cache hvs (k, e) hke with hold | ⟨hpc, r, hrd, hp, _⟩
+      rcases vstep_cache hnt hvs (k, e) hke with hold | ⟨hpc, r, hrd, hp, _⟩
       · exact hA.cache k e hold
       · simp only [Prod.mk.injEq] at hp
         obtain ⟨hk, he⟩ := hp
@@ -85,7 +93,9 @@ theorem auth_step {cfg : Cfg} {db0 : Option Row} {s s' : State} {ev : Ev} (hA : 
       rw [hf.1]
       rcases getElem?_set_cases hj with ⟨_, hb⟩ | ⟨_, hj'⟩
       · subst hb
-        rcases vstep_spec hvs with ⟨_, _, h2⟩ | ⟨_, _, h2⟩ | ⟨hpc, r, hrd, h2⟩ | ⟨hpc, r, hrd, h1, _⟩ | ⟨_, _, h2⟩ | ⟨_, _, h2⟩
+        rcases vstep_spec hvs with ⟨_, _, h2⟩ | ⟨_, _, h2⟩ | ⟨hpc, r, hrd, h2⟩ | ⟨hpc, r, hrd, h1, _⟩ | ⟨_, _, h2⟩ | ⟨_, _, h2⟩ | ⟨_, e, _, h2, _⟩
+        rotate_right
+        · subst h2; simp at hhold
         · rcases h2 with ⟨e, _, _, h2⟩ | h2 <;> subst h2 <;> simp at hhold
         · rcases h2 with ⟨r, hc, _, h2⟩ | ⟨_, _, h2⟩
           · subst h2
@@ -112,29 +122,16 @@ theorem auth_step {cfg : Cfg} {db0 : Option Row} {s s' : State} {ev : Ev} (hA : 
       rw [hf.1]
       rcases getElem?_set_cases hj with ⟨_, hb⟩ | ⟨_, hj'⟩
       · subst hb
-        rcases vstep_spec hvs with ⟨hpc0, _, h2⟩ | ⟨_, _, h2⟩ | ⟨_, r, _, h2⟩ | ⟨_, r, _, h1, _⟩ | ⟨hpc, _, h2⟩ | ⟨_, _, h2⟩
-        · rcases h2 with ⟨e, he, hhit, h2⟩ | h2
-          · subst h2
-            obtain ⟨hseen, hen, hh, hce⟩ := hA.cache v.val e (lookup_mem he)
-            refine ⟨e.info, hseen, hen, hh, ?_⟩
-            intro t ht
-            simp only
-            unfold hitOk at hhit
-            simp only [Bool.and_eq_true, decide_eq_true_eq, Bool.or_eq_true, Bool.not_eq_eq_eq_not,
-              Bool.not_true] at hhit
-            cases hx : cfg.hitChecksExpiry with
-            | true =>
-              left
-              rcases hhit.2 with h | h
-              · rw [hx] at h; simp at h
-              · exact expired_false h ht
-            | false =>
-              right
-              exact ⟨rfl, Nat.lt_of_lt_of_le hhit.1 (hce t ht)⟩
-          · subst h2
-            simp only at hres
-            rw [hA.fresh i v hv hpc0] at hres
-            simp at hres
+        rcases vstep_spec hvs with ⟨hpc0, _, h2⟩ | ⟨_, _, h2⟩ | ⟨_, r, _, h2⟩ | ⟨_, r, _, h1, _⟩ | ⟨hpc, _, h2⟩ | ⟨_, _, h2⟩ | ⟨hpch, e, he, h2, _⟩
+        rotate_right
+        · subst h2
+          obtain ⟨e', he', hseen, hen, hh, hu⟩ := hA.hit i v hv hpch
+          rw [he] at he'
+          simp only [Option.some.injEq] at he'
+          subst he'
+          exact ⟨e.info, hseen, hen, hh, hu⟩
+        · have hn := hA.fresh i v hv hpc0
+          rcases h2 with ⟨e, _, _, h2⟩ | h2 <;> subst h2 <;> simp only at hres <;> rw [hn] at hres <;> simp at hres
         · rcases h2 with ⟨r, _, _, h2⟩ | ⟨_, _, h2⟩ <;> subst h2 <;> exact hA.res i v hv hres
         · rcases h2 with ⟨_, _, _, h2⟩ | ⟨_, _, _, h2⟩ | ⟨_, _, h2⟩
           · subst h2; simp at hres
@@ -153,6 +150,38 @@ theorem auth_step {cfg : Cfg} {db0 : Option Row} {s s' : State} {ev : Ev} (hA : 
       · subst hb
         exact absurd hpc (vstep_pc hvs)
       · exact hA.fresh j vj hj' hpc
+    · intro j vj hj hpc
+      simp only at hj ⊢
+      rw [hf.1]
+      rcases getElem?_set_cases hj with ⟨_, hb⟩ | ⟨_, hj'⟩
+      · subst hb
+        rcases vstep_spec hvs with ⟨_, _, h2⟩ | ⟨_, _, h2⟩ | ⟨_, r, _, h2⟩ | ⟨_, r, _, h1, _⟩ | ⟨_, _, h2⟩ | ⟨_, _, h2⟩ | ⟨_, e, _, h2, _⟩
+        · rcases h2 with ⟨e, he, hhit, h2⟩ | h2
+          · subst h2
+            obtain ⟨hseen, hen, hh, hce⟩ := hA.cache v.val e (lookup_mem he)
+            refine ⟨e, rfl, hseen, hen, hh, ?_⟩
+            intro t ht
+            simp only
+            unfold hitOk at hhit
+            simp only [Bool.and_eq_true, decide_eq_true_eq, Bool.or_eq_true, Bool.not_eq_eq_eq_not,
+              Bool.not_true] at hhit
+            cases hx : cfg.hitChecksExpiry with
+            | true =>
+              left
+              rcases hhit.2 with h | h
+              · rw [hx] at h; simp at h
+              · exact expired_false h ht
+            | false =>
+              right
+              exact ⟨rfl, Nat.lt_of_lt_of_le hhit.1 (hce t ht)⟩
+          · subst h2; simp at hpc
+        · rcases h2 with ⟨r, _, _, h2⟩ | ⟨_, _, h2⟩ <;> subst h2 <;> simp at hpc
+        · rcases h2 with ⟨_, _, _, h2⟩ | ⟨_, _, _, h2⟩ | ⟨_, _, h2⟩ <;> subst h2 <;> simp at hpc
+        · subst h1; simp at hpc
+        · subst h2; simp at hpc
+        · subst h2; simp at hpc
+        · subst h2; simp at hpc
+      · exact hA.hit j vj hj' hpc
   | m =>
     obtain ⟨sh', m', hms, hs'⟩ := step_m_spec hs
     subst hs'
@@ -165,7 +194,7 @@ theorem auth_step {cfg : Cfg} {db0 : Option Row} {s s' : State} {ev : Ev} (hA : 
         · rw [hdb] at h; exact Or.inl h
       rcases h2 with ⟨r0, _, h1, h2⟩ | ⟨_, h1, h2⟩
       · subst h1; subst h2
-        refine ⟨by simp, ?_, ?_, ?_, hA.fresh⟩
+        refine ⟨by simp, ?_, ?_, ?_, hA.fresh, ?_⟩
         · intro k e hke
           obtain ⟨h1, h2⟩ := hA.cache k e hke
           exact ⟨hseen _ _ h1, h2⟩
@@ -175,29 +204,32 @@ theorem auth_step {cfg : Cfg} {db0 : Option Row} {s s' : State} {ev : Ev} (hA : 
         · intro j vj hj hh
           obtain ⟨r, h1, h2⟩ := hA.res j vj hj hh
           exact ⟨r, hseen _ _ h1, h2⟩
+        · intro j vj hj hh
+          obtain ⟨e, he, h1, h2⟩ := hA.hit j vj hj hh
+          exact ⟨e, he, hseen _ _ h1, h2⟩
       · subst h1; subst h2
-        exact ⟨by simp, hA.cache, hA.rd, hA.res, hA.fresh⟩
+        exact ⟨by simp, hA.cache, hA.rd, hA.res, hA.fresh, hA.hit⟩
     · subst hm'
       have hne : ¬ (MPc.done = MPc.start) := by simp
       rcases h2 with ⟨_, _, h1⟩ | ⟨_, h1⟩
       · subst h1
-        refine ⟨fun h => absurd h hne, ?_, hA.rd, hA.res, hA.fresh⟩
+        refine ⟨fun h => absurd h hne, ?_, hA.rd, hA.res, hA.fresh, hA.hit⟩
         intro k e hke
         simp at hke
       · subst h1
-        exact ⟨fun h => absurd h hne, hA.cache, hA.rd, hA.res, hA.fresh⟩
+        exact ⟨fun h => absurd h hne, hA.cache, hA.rd, hA.res, hA.fresh, hA.hit⟩
   | tick d =>
     simp only [step, Option.some.injEq] at hs
     subst hs
-    exact ⟨hA.dbfix, hA.cache, hA.rd, hA.res, hA.fresh⟩
+    exact ⟨hA.dbfix, hA.cache, hA.rd, hA.res, hA.fresh, hA.hit⟩
   | janitor =>
     simp only [step, Option.some.injEq] at hs
     subst hs
-    refine ⟨hA.dbfix, ?_, hA.rd, hA.res, hA.fresh⟩
+    refine ⟨hA.dbfix, ?_, hA.rd, hA.res, hA.fresh, hA.hit⟩
     intro k e hke
     exact hA.cache k e (List.mem_filter.mp hke).1
 
-theorem auth_run {cfg : Cfg} {db0 : Option Row} :
+theorem auth_run {cfg : Cfg} {db0 : Option Row} (hnt : cfg.hitTouch = false) :
     ∀ (evs : List Ev) (s s' : State), Auth cfg db0 s → run cfg s evs = some s' → Auth cfg db0 s' := by
   intro evs
   induction evs with
@@ -212,7 +244,7 @@ theorem auth_run {cfg : Cfg} {db0 : Option Row} :
     split at hr
     · simp at hr
     · rename_i s1 hs1
-      exact ih s1 s' (auth_step hA hs1) hr
+      exact ih s1 s' (auth_step hnt hA hs1) hr
 
 /-- the mutator has not run its SQL statement along `evs` ⇒ it is still at `start`. -/
 theorem run_no_m {cfg : Cfg} :
@@ -248,7 +280,11 @@ theorem run_no_m {cfg : Cfg} :
 theorem auth_cold {cfg : Cfg} {s : State} (hc : s.sh.cache = [])
     (hv : ∀ (i : Nat) (v : VThread), s.vs[i]? = some v → v.pc = .start ∧ v.res = none) :
     Auth cfg s.sh.db s := by
-  refine ⟨fun _ => rfl, ?_, ?_, ?_, fun i v hi _ => (hv i v hi).2⟩
+  refine ⟨fun _ => rfl, ?_, ?_, ?_, fun i v hi _ => (hv i v hi).2, ?_⟩
+  rotate_right
+  · intro i v hi hp
+    have := (hv i v hi).1
+    rw [this] at hp; simp at hp
   · intro k e hke; rw [hc] at hke; simp at hke
   · intro i v hi hh
     have := (hv i v hi).1
